@@ -56,7 +56,6 @@ fn main() {
         let declared = text.lines().take(8).filter_map(|l| l.trim().strip_prefix("// requires:")).all(|reqs| {
             reqs.split(',').map(|r| r.trim().to_lowercase()).filter(|r| !r.is_empty()).all(|r| mods.contains(&r))
         });
-<<<<<<< HEAD
         // references such as `crate::registry::c02::...` are requirements too
         let mut referenced = true;
         for (i, _) in text.match_indices("::c") {
@@ -70,14 +69,6 @@ fn main() {
             }
         }
         declared && referenced
-=======
-        // also without a header: every `registry::cNN` the tool mentions must be part of the build
-        let mentioned = text.match_indices("registry::c").all(|(i, _)| {
-            let name: String = text[i + "registry::".len()..].chars().take(3).collect();
-            !(name.len() == 3 && name[1..].chars().all(|c| c.is_ascii_digit())) || mods.contains(&name)
-        });
-        declared && mentioned
->>>>>>> ws-c09
     });
     for t in &tools {
         out.push_str(&format!("#[path = \"{}/{}.rs\"]\npub mod {};\n", src.display(), t, t));
